@@ -795,6 +795,15 @@ class Evaluator:
                             v = self.ev(st.value.args[0])
                             holder_d[k_] = holder_d[k_] + ((v,) if f.attr == "append" else tuple(v))
                             return None
+                if isinstance(f, ast.Attribute) and f.attr in ("reverse", "sort") and isinstance(f.value, ast.Name) and isinstance(self.env.get(f.value.id), tuple) \
+                        and not st.value.args and not st.value.keywords:
+                    # in-place reverse / sort of a list the model keeps as a tuple
+                    cur_t = self.env[f.value.id]
+                    try:
+                        self.env[f.value.id] = tuple(reversed(cur_t)) if f.attr == "reverse" else tuple(sorted(cur_t))
+                    except TypeError:
+                        raise Unsupported(st, "sort of unordered model values")
+                    return None
                 if self.call_hook is not None and self.call_hook(st.value, self):
                     return None
                 if getattr(self, "call_value", None) is not None and self.call_value(st.value, self) is not NOT_MODELLED:
